@@ -1335,7 +1335,8 @@ public:
               if (assignCost(i, j) - v[j] < min)
                 min = assignCost(i, j) - v[j];
           }
-          v[j1] = v[j1] - min;
+          if (dim > 1) // with a single column there is no other column to take the minimum over
+            v[j1] = v[j1] - min;
         }
       }
     }
